@@ -274,17 +274,23 @@ class HostGen:
 
     def g_loop(self, sc, depth, mine, top):
         r = self.rng
-        start = r.choice([0, 0, 1, 2])
-        step = r.choice([1, 1, 2, 3])
+        down = r.random() < 0.2       # counting down (negative step), the index staying >= 0
+        start = r.choice([3, 4, 5, 6, 7]) if down else r.choice([0, 0, 1, 2])
+        step = -r.choice([1, 2, 2, 3]) if down else r.choice([1, 1, 2, 3])
         count = r.choice([0, 1, 2, 3, 4])
+        if down:
+            count = min(count, start // -step + 1)
         var = self.name("i")
         c = self.body_scope(sc)
         c.vars[var] = [start + step * j for j in range(count)]
         body = self.block(c, depth + 1, r.randrange(1, 4))
         stop = start + step * count
-        if r.random() < 0.3:
-            # a stop that the index never hits exactly (step does not divide the range), or an empty range with stop < start
-            stop = stop - r.randrange(step) if count else start - r.choice([0, 1, 3])
+        if r.random() < (0.5 if down else 0.3):
+            # a stop that the index never hits exactly (step does not divide the range), or an empty range (stop on the wrong side)
+            if down:
+                stop = stop + r.randrange(-step) if count else start + r.choice([0, 1, 3])
+            else:
+                stop = stop - r.randrange(step) if count else start - r.choice([0, 1, 3])
         st = {"op": "loop", "var": var, "start": start, "stop": stop, "step": step,
               "form": r.choice(["ctx", "cb"]), "body": body}
         if top and not self.manual_registers and r.random() < 0.25:
